@@ -63,7 +63,11 @@ def compute_signature(
             # Hash on UFL signature and points
             signature = ufl.algorithms.signature.compute_expression_signature(expr, rn)
             object_signature += signature
-            object_signature += repr(points)
+            # repr() rounds to 8 digits and abbreviates large arrays, so hash
+            # the shape and the exact values instead
+            _points = np.ascontiguousarray(points, dtype=np.float64)
+            object_signature += repr(_points.shape)
+            object_signature += hashlib.sha1(_points.tobytes()).hexdigest()
 
             kind = "expression"
         else:
